@@ -226,6 +226,7 @@ func (p *Prog) indexFns() {
 	}
 	p.aliasRegistryFns()
 	p.canonReceivers()
+	p.alignRoles()
 	sort.Slice(p.Fns, func(i, j int) bool { return p.Fns[i].Name < p.Fns[j].Name })
 }
 
